@@ -165,6 +165,15 @@ class GetHeaderValue(Contract):
         name = z3.SubString(v, 1, z3.Length(v) - 1)
         return v, is_var, get(ENV, V.VStr(name))
 
+    def result_term(self, A):
+        v, is_var, var_value = self._parts(A)
+        return z3.If(is_var, var_value, A.value)
+
+    def may_raise(self, A, I):
+        v, is_var, var_value = self._parts(A)
+        return [(EX.InvalidConfiguration, z3.And(is_var, z3.Not(truthy(var_value))),
+                 Obj(EX.InvalidConfiguration, {"args": (SV(I.p.fresh("msg")),)}))]
+
     def ensures(self, A, res):
         v, is_var, var_value = self._parts(A)
         return {"plain-values-unchanged": z3.Implies(z3.Not(is_var), res == A.value),
